@@ -1,0 +1,84 @@
+//go:build verif
+
+// Contracts for contract-based deductive verification (govc, /verif).
+// This file contains comments only; it adds no code to the package.
+
+package soc
+
+//@ opaque github.com/gauss-project/aurorafs/pkg/boson.Address as Addr
+
+//@ # ---- assumed: chunks and addresses are immutable values; hash and signature functions ----------
+//@ spec func addrBytes(a boson.Address) Bytes
+//@ spec func addrOf(b Bytes) boson.Address
+//@ axiom addr-of-bytes: forall a boson.Address :: addrOf(addrBytes(a)) == a
+//@ spec func chunkData(c int) Bytes
+//@ spec func chunkLen(c int) int
+//@ spec func chunkAddr(c int) boson.Address
+//@ extern func (github.com/gauss-project/aurorafs/pkg/boson.Address).Bytes
+//@   ensures seq(result) == addrBytes(a)
+//@   assigns nothing
+//@ extern func (github.com/gauss-project/aurorafs/pkg/boson.Address).Equal
+//@   ensures result == (a == b)
+//@   assigns nothing
+//@ extern func github.com/gauss-project/aurorafs/pkg/boson.NewAddress
+//@   ensures result == addrOf(seq(b))
+//@   assigns nothing
+//@ extern func (github.com/gauss-project/aurorafs/pkg/boson.Chunk).Data
+//@   ensures seq(result) == chunkData(ref(self)) && len(result) == chunkLen(ref(self))
+//@   assigns nothing
+//@ extern func (github.com/gauss-project/aurorafs/pkg/boson.Chunk).Address
+//@   ensures result == chunkAddr(ref(self))
+//@   assigns nothing
+//@ extern func github.com/gauss-project/aurorafs/pkg/boson.NewChunk
+//@   ensures result != nil && chunkAddr(ref(result)) == address && chunkData(ref(result)) == seq(data) && chunkLen(ref(result)) == len(data)
+//@   assigns nothing
+//@ # content-addressed chunk over (span ++ data): its payload is exactly the given bytes and its
+//@ # address a function of them (proved in pkg/cac, C04)
+//@ spec func cacAddr(payload Bytes) boson.Address
+//@ extern func github.com/gauss-project/aurorafs/pkg/cac.NewWithDataSpan
+//@   ensures result1 == nil ==> result0 != nil && chunkData(ref(result0)) == seq(data) && chunkLen(ref(result0)) == len(data) && chunkAddr(ref(result0)) == cacAddr(seq(data))
+//@   assigns nothing
+//@ # keccak256 over the concatenation of two byte strings; signature recovery and address derivation
+//@ spec func keccak2(a Bytes, b Bytes) Bytes
+//@ spec func ownerOf(sig Bytes, digest Bytes) Bytes
+//@ func hash
+//@   trusted
+//@   ensures len(values) == 2 && result1 == nil ==> seq(result0) == keccak2(seq(values[0]), seq(values[1])) && len(result0) == 32
+//@   assigns nothing
+//@ func recoverAddress
+//@   trusted
+//@   ensures result1 == nil ==> seq(result0) == ownerOf(seq(signature), seq(digest))
+//@   assigns nothing
+
+//@ func CreateAddress
+//@   property C05
+//@   ensures address-is-keccak-of-id-and-owner: result1 == nil ==> result0 == addrOf(keccak2(seq(id), seq(owner)))
+//@   assigns nothing
+
+//@ func (*SOC).address
+//@   property C05
+//@   requires s != nil
+//@   ensures owner-is-an-address: result1 == nil ==> len(s.owner) == 20
+//@   ensures address-is-keccak-of-id-and-owner: result1 == nil ==> result0 == addrOf(keccak2(seq(s.id), seq(s.owner)))
+//@   assigns nothing
+
+//@ # parsing a serialized single-owner chunk: id | signature | wrapped payload, owner recovered from
+//@ # the signature over keccak(id || wrapped address)
+//@ func FromChunk
+//@   property C05
+//@   requires sch != nil
+//@   let D = chunkData(ref(sch))
+//@   let n = chunkLen(ref(sch))
+//@   ensures too-short-rejected: n < 105 ==> result1 != nil
+//@   ensures parsed: result1 == nil ==> result0 != nil && n >= 105 && len(result0.id) == 32 && len(result0.signature) == 65 && result0.chunk != nil
+//@   ensures id-is-the-first-32-bytes: result1 == nil ==> seq(result0.id) == head(D, 32)
+//@   ensures signature-is-the-next-65-bytes: result1 == nil ==> seq(result0.signature) == head(tail(D, 32), 65)
+//@   ensures wrapped-chunk-is-the-rest: result1 == nil ==> chunkData(ref(result0.chunk)) == tail(D, 97) && chunkAddr(ref(result0.chunk)) == cacAddr(tail(D, 97))
+//@   ensures owner-recovered-from-the-signature: result1 == nil ==> len(result0.owner) == 20 && seq(result0.owner) == ownerOf(head(tail(D, 32), 65), keccak2(head(D, 32), addrBytes(cacAddr(tail(D, 97)))))
+
+//@ # a chunk is accepted as single-owner exactly when it parses and its address commits to id and owner
+//@ func Valid
+//@   property C05
+//@   requires ch != nil
+//@   let D = chunkData(ref(ch))
+//@   ensures accepted-only-if-address-commits: result ==> chunkLen(ref(ch)) >= 105 && chunkAddr(ref(ch)) == addrOf(keccak2(head(D, 32), ownerOf(head(tail(D, 32), 65), keccak2(head(D, 32), addrBytes(cacAddr(tail(D, 97)))))))
